@@ -194,7 +194,8 @@ def _compare_fs(type_: Type, a: FeatureStructure, b: FeatureStructure) -> int:
     fs_a_is_annotation = _is_annotation_fs(a)
     fs_b_is_annotation = _is_annotation_fs(b)
     if fs_a_is_annotation != fs_b_is_annotation:
-        return -1
+        # Structures with offsets come first; the answer must not depend on which operand is which
+        return -1 if fs_a_is_annotation else 1
     if fs_a_is_annotation and fs_b_is_annotation:
         begin_cmp = a.begin - b.begin
         if begin_cmp != 0:
